@@ -189,7 +189,7 @@ ROUND6 = {
  "C20": "Three tables of the PostgreSQL base share one enum (dropping everything gives one change several later dependencies).",
 }
 ROUND7 = {
- "C02": "SQLite table with two foreign keys without constraint names (positional labels), renumbered when the declaration order is permuted; PostgreSQL serial column as inspected (with its sequence name), integer <-> serial retypes.",
+ "C02": "SQLite table with two foreign keys without constraint names (positional labels), renumbered when the declaration order is permuted; PostgreSQL serial column as inspected (with its sequence name), integer <-> serial retypes; edits of the schema's own attributes (MySQL default character set / collation, PostgreSQL schema comment: ModifySchema); realms of two schemas holding a table of the same name, a foreign key re-pointed from one to the other.",
  "C05": "Desired state also as an HCL document (string defaults arrive unquoted); the expected fill of a NULL under a new NOT NULL column is the model's default, not the migrated table's; enumerated sub-check null-becomes-default (column type x default shape x source of the desired state).",
  "C06": "MemDir.CopyFiles into a directory that already holds a file, and with the files handed over in reverse order.",
  "C08": "Runs of BEGIN ATOMIC words in the growth sub-check (all four option sets), run lengths grown two words at a time.",
